@@ -31,7 +31,8 @@ UNIV = "[" + ";".join(str(i) for i in range(NSLOT)) + "]"
 HDR = ("From Coq Require Import NArith List.\nFrom V Require Import Model.Crash Model.CrashCheck.\n"
        "Import ListNotations.\nOpen Scope N_scope.\n")
 PARTIAL, MISSING, CORRUPT = 999999, 999998, 999996
-INSERTS = ("put", "ingest", "transfer")
+INSERTS = ("put", "ingest", "transfer", "mput")
+SHARED = ("ingestmulti", "ingestzip")          # one artifact for several datasets: oracle only (the model has one path per id)
 REMOVALS = ("prune", "unstore", "removeruns", "emptytrash", "trash")
 
 
@@ -46,6 +47,7 @@ class G:
     def __init__(self):
         self.ds, self.stored, self.pending, self.ext = set(), set(), set(), set(range(NSLOT))
         self.runs = {0, 1}
+        self.groups = []          # ids that share one artifact
 
     def note(self, op):
         k = op[0]
@@ -61,6 +63,16 @@ class G:
             l = op[1]
             if l and len(set(l)) == len(l) and all(d not in self.ds and run_of(d) in self.runs for d in l):
                 self.ds |= set(l); self.stored |= set(l)
+        elif k == "mput":
+            for d, _ in op[1]:
+                self.note(["put", d, 0])
+        elif k in ("ingestmulti", "ingestzip"):
+            l = op[-1]
+            if l and len(set(l)) == len(l) and all(d not in self.ds and run_of(d) in self.runs for d in l):
+                self.ds |= set(l); self.stored |= set(l)
+                self.groups.append(list(l))
+                if op[:2] == ["ingestmulti", "move"]:
+                    self.ext.discard(l[0])
         elif k == "prune":
             t = set(op[1]) & self.ds
             self.ds -= t; self.stored -= t
@@ -121,7 +133,37 @@ def gen_scenario(rng: random.Random, kind: str):
     if kind == "emptytrash" and not g.pending and g.stored:
         op = ["trash", rng.sample(sorted(g.stored), min(len(g.stored), rng.choice([1, 2])))]
         pre.append(op); g.note(op)
-    if kind == "put":
+    if kind in ("prune_shared", "unstore_shared"):
+        # a removal whose targets share their artifact with datasets that stay (or not): the artifact may only go with its last ref
+        f = free()
+        if len(f) < 2:
+            pre, g = [["put", 0, 7]], G()
+            g.note(pre[0])
+            f = free()
+        l = rng.sample(f, min(len(f), rng.choice([2, 2, 3])))
+        l.sort(key=lambda d: d not in g.ext)
+        mk = ["ingestzip", l] if rng.random() < 0.5 else ["ingestmulti", rng.choice(["copy", "move"]), l]
+        pre.append(mk); g.note(mk)
+        tg = rng.sample(l, rng.choice([1, 1, len(l) - 1, len(l)]) or 1)
+        if g.stored - set(l) and rng.random() < 0.4:
+            tg.append(rng.choice(sorted(g.stored - set(l))))
+        op = [kind.split("_")[0], tg]
+        return {"pre": pre, "op": op, "follow": follows_of(op), "model": False}
+    if kind == "mput":
+        f = free()
+        l = rng.sample(f, min(len(f), rng.choice([2, 2, 3]))) if f else [rng.randrange(NSLOT)]
+        if rng.random() < 0.12:
+            l.insert(rng.randrange(len(l) + 1), rng.randrange(NSLOT))      # possibly registered already / duplicate: that put is refused
+        op = ["mput", [[d, rng.randrange(1, 90)] for d in l]]
+    elif kind in SHARED:
+        f = free()
+        l = rng.sample(f, min(len(f), rng.choice([2, 2, 3]))) if f else [rng.randrange(NSLOT)]
+        if rng.random() < 0.1:
+            l.append(rng.randrange(NSLOT))
+        l.sort(key=lambda d: d not in g.ext)       # the one staging file that is ingested is the first ref's
+        op = ["ingestzip", l] if kind == "ingestzip" else ["ingestmulti", rng.choice(["copy", "move"]), l]
+        return {"pre": pre, "op": op, "follow": [[op]], "model": False}
+    elif kind == "put":
         op = ["put", fresh(), rng.randrange(1, 90)]
     elif kind == "ingest":
         op = ["ingest", rng.choice(["copy", "move"]), fresh()]
@@ -145,7 +187,7 @@ def gen_scenario(rng: random.Random, kind: str):
 
 
 def follows_of(op):
-    if op[0] in INSERTS:
+    if op[0] in INSERTS or op[0] in SHARED:
         return [[op]]
     if op[0] == "emptytrash":
         return [[["emptytrash"]]]
@@ -154,7 +196,8 @@ def follows_of(op):
     return [[op, ["emptytrash"]], [["emptytrash"]]]
 
 
-KINDS = ["put", "ingest", "transfer", "prune", "unstore", "removeruns", "emptytrash", "trash"]
+KINDS = ["put", "ingest", "transfer", "prune", "unstore", "removeruns", "emptytrash", "trash",
+         "mput", "prune_shared", "ingestzip", "ingestmulti", "unstore_shared"]
 
 
 # =================================================================================================
@@ -193,6 +236,15 @@ def op_targets(op, pre_obs):
         return {op[2]: 100 + op[2]}
     if k == "transfer":
         return {d: 200 + d for d in op[1]}
+    if k == "mput":
+        out = {}
+        for d, v in op[1]:
+            out.setdefault(d, v)
+        return out
+    if k == "ingestmulti":
+        return {d: [op[2][0], 100 + op[2][0]] for d in op[2]}      # every ref reads the ONE ingested file
+    if k == "ingestzip":
+        return {d: [d, 200 + d] for d in op[1]}
     if k in ("prune", "unstore", "trash"):
         return {d: None for d in op[1]}
     if k == "removeruns":
@@ -254,6 +306,13 @@ def check_scenario(ctx: Ctx, sc, res, origin):
                 if fully_present(X, d, v) or fully_absent(X, d) or _vec(X, d) == _vec(P, d):
                     continue
                 fail("insertion-half-done", at, mid, f"dataset {d} is neither completely present nor absent: {_vec(X, d)}", dataset=d)
+            if kind == "mput":
+                # a loop of puts interrupted anywhere: a PREFIX of the new datasets is fully present, the rest fully absent
+                new_ones = [d for d in targets if fully_absent(P, d)]
+                flags = [fully_present(X, d, targets[d]) for d in new_ones]
+                if any(b and not a for a, b in zip(flags, flags[1:])):
+                    fail("multi-put-not-a-prefix", at, mid, f"datasets {new_ones} present={flags}: a later put is visible while an earlier one is not")
+                ctx.hist("mput_prefix_length", sum(flags))
         # follow-ups
         for f in c["follow"]:
             Y, ops = f["obs"], f["ops"]
@@ -301,6 +360,157 @@ def check_scenario(ctx: Ctx, sc, res, origin):
 
 
 # =================================================================================================
+# the same oracle for scenarios with SHARED artifacts (multi-ref ingest, ingest_zip): what a fresh Butler reports per dataset
+# (the artifact is accounted for separately: it belongs to several datasets).  Implementation observations only; these
+# scenarios are not sent to the Coq model (which has one path per dataset id).
+# =================================================================================================
+def _vec2(obs, d):
+    ex = next((e[1:] for e in obs["exists"] if e[0] == d), None)
+    gt = next((g[1:] for g in obs["get_raw"] if g[0] == d), None)
+    return {"listed": d in obs["ds"], "exists": ex, "get": gt, "row": d in obs["raw_ds"], "loc": d in obs["raw_loc"],
+            "recs": any(r[0] == d for r in obs["raw_recs_id"])}
+
+
+NOTHING2 = {"listed": False, "exists": None, "get": None, "row": False, "loc": False, "recs": False}
+
+
+def present2(obs, d, sv):
+    x = _vec2(obs, d)
+    return x["listed"] and x["exists"] == [1, 1, 1] and x["get"] == list(sv) and x["row"] and x["loc"] and x["recs"]
+
+
+def absent2(obs, d):
+    x = _vec2(obs, d)
+    return not x["listed"] and not x["row"] and not x["loc"] and not x["recs"]
+
+
+def gone2(obs, d):
+    x = _vec2(obs, d)
+    return not x["loc"] and not x["recs"] and (x["exists"] is None or x["exists"][1:] == [0, 0])
+
+
+def artifact_tokens(obs):
+    """(artifacts that exist under final names, artifacts some datastore record refers to, ... of a located dataset)."""
+    have = {d for d, _ in obs["files"]} | ({"zip"} if obs["zips"] else set())
+    ref = {r[1] for r in obs["raw_recs_id"]}
+    ref_loc = {r[1] for r in obs["raw_recs_id"] if r[0] in obs["raw_loc"]}
+    return have, ref, ref_loc
+
+
+def check_shared(ctx: Ctx, sc, res, origin):
+    pre, op = sc["pre"], sc["op"]
+    P = res["pre_obs"]
+    kind = op[0]
+    trace = res["free"]["trace"]
+    targets = op_targets(op, P)
+    failed = []
+
+    def fail(sig, at, mid, what, **extra):
+        failed.append(sig)
+        ev = trace[at] if at is not None and at < len(trace) else "END"
+        ctx.oracle_fail(f"shared-{kind}:{sig}", dict({"origin": origin, "pre": pre, "op": op, "crash_at": at, "mid_write": mid,
+                                                      "event": ev, "follow": sc.get("follow"), "model": False}, **extra), what)
+
+    def common(obs, at, mid, where):
+        if obs["errors"]:
+            fail("reopen-errors" + where, at, mid, f"a fresh Butler failed while observing: {obs['errors'][:3]}")
+        for d in range(NSLOT):
+            if d in targets or d in P["raw_trash"]:
+                continue
+            a, b = _vec2(P, d), _vec2(obs, d)
+            if a != b:
+                ch = sorted(k for k in a if a[k] != b[k])
+                fail(f"bystander-changed{where}:{'+'.join(ch)}", at, mid,
+                     f"dataset {d} was not a target of {op} but a fresh Butler reports it differently after the crash{where}: "
+                     f"{ {k: [a[k], b[k]] for k in ch} }", dataset=d)
+        for d, v in obs["files"]:
+            if v < 0:
+                fail("partial-under-final-name" + where, at, mid, f"the artifact under the final name of slot {d} is not a complete file", dataset=d)
+        for rel, ok in obs["zips"]:
+            if not ok:
+                fail("partial-zip-under-final-name" + where, at, mid, f"{rel} is not a complete zip archive")
+        if obs["ds"] != obs["raw_ds"]:
+            fail("query-vs-rows" + where, at, mid, f"query_datasets {obs['ds']} differs from the dataset rows {obs['raw_ds']}")
+        have, _, ref_loc = artifact_tokens(obs)
+        if ref_loc - have:
+            fail("artifact-of-located-dataset-missing" + where, at, mid,
+                 f"artifacts {sorted(map(str, ref_loc - have))} are referred to by located datasets but do not exist any more")
+
+    if P["errors"]:
+        fail("harness:pre-errors", None, False, f"observation errors before the operation: {P['errors']}")
+    new_ones = [d for d in targets if _vec2(P, d) == NOTHING2 and d not in P["raw_trash"]]
+    for c in res["crashes"]:
+        X, at, mid = c["obs"], c["at"], c["mid"]
+        if c["exit"] == "hang":
+            fail("hang", at, mid, "the operation never returned")
+        elif c["exit"] not in (137, 0, 4):
+            fail("worker-exit", at, mid, f"crash child ended with {c['exit']}")
+        common(X, at, mid, "")
+        if kind in SHARED:
+            for d, sv in targets.items():
+                if not (present2(X, d, sv) or absent2(X, d) or _vec2(X, d) == _vec2(P, d)):
+                    fail("insertion-half-done", at, mid, f"dataset {d} is neither completely present nor absent: {_vec2(X, d)}", dataset=d)
+            flags = [present2(X, d, targets[d]) for d in new_ones]
+            if res["free"]["out"] == "Ok" and len(set(flags)) > 1:
+                fail("joint-insertion-split", at, mid, f"one call ingests {new_ones} from one artifact but present={flags}")
+            interrupted = not (flags and all(flags))
+            for f in c["follow"]:
+                Y, tag = f["obs"], ":after-rerun"
+                if not interrupted:
+                    # nothing was interrupted: re-ingesting what is already there is a refusal (and for ingest_zip that refusal
+                    # is destructive: C09's known finding) -- not part of this property
+                    ctx.hist("shared_rerun_skipped_insertion_was_complete", kind)
+                    continue
+                if f["exit"] == "hang":
+                    fail("hang" + tag, at, mid, "follow-up never returned")
+                common(Y, at, mid, tag)
+                for d, sv in targets.items():
+                    if not (present2(Y, d, sv) or (res["free"]["out"] != "Ok" and _vec2(Y, d) == _vec2(P, d))):
+                        if kind == "ingestmulti" and op[1] == "move" and not any(e[0] == op[2][0] for e in X["ext"]):
+                            ctx.hist("ingest_move_source_consumed_unregistered", "crash points")
+                            continue
+                        fail("rerun-insert-incomplete", at, mid, f"after re-running {op} dataset {d} is {_vec2(Y, d)}", dataset=d)
+        else:
+            for f in c["follow"]:
+                Y, ops = f["obs"], f["ops"]
+                tag = ":after-" + "+".join(o[0] for o in ops)
+                if f["exit"] == "hang":
+                    fail("hang" + tag, at, mid, "follow-up never returned")
+                common(Y, at, mid, tag)
+                rerun = ops[0][0] != "emptytrash"
+                for d in targets:
+                    if _vec2(P, d) == NOTHING2 and d not in P["raw_trash"]:
+                        continue
+                    y = _vec2(Y, d)
+                    done = gone2(Y, d) and ((not y["row"] and not y["listed"]) if kind == "prune" else True)
+                    untouched = y == _vec2(P, d) and d not in Y["raw_trash"]
+                    if rerun and not done:
+                        fail("rerun-incomplete", at, mid, f"after re-running the removal and emptying the trash dataset {d} is still {y}", dataset=d)
+                    if not rerun and not (done or untouched):
+                        fail("emptytrash-incomplete", at, mid, f"after emptying the trash dataset {d} is neither removed nor untouched: {y}", dataset=d)
+                if Y["raw_trash"]:
+                    fail("trash-row-survives", at, mid, f"dataset_location_trash still holds {Y['raw_trash']} after {[o[0] for o in ops]}", stale=Y["raw_trash"])
+                have, ref, _ = artifact_tokens(Y)
+                if have - ref:
+                    fail("artifact-left-behind", at, mid,
+                         f"after {[o[0] for o in ops]} the artifacts {sorted(map(str, have - ref))} exist under final names but no datastore record "
+                         f"refers to them any more: the deletion of the last dataset sharing them was not completed")
+                if ref - have:
+                    fail("shared-artifact-deleted-too-early", at, mid,
+                         f"after {[o[0] for o in ops]} the artifacts {sorted(map(str, ref - have))} are still referred to by datastore records but are gone")
+    return failed
+
+
+def nontrivial_shared(sc, res):
+    """(shared-artifact scenarios) the call succeeds fault-free, at least 4 distinct crash observations, and -- for removals --
+    the targets share their artifact with at least one dataset (kept or removed)."""
+    if res["free"]["out"] != "Ok":
+        return False
+    states = {json.dumps([c["obs"][k] for k in ("raw_ds", "raw_loc", "raw_trash", "raw_recs_id", "files", "zips", "odd")]) for c in res["crashes"]}
+    return len(states) >= 4
+
+
+# =================================================================================================
 # Coq literals
 # =================================================================================================
 def nl(xs):
@@ -338,6 +548,17 @@ def cop(op, ord_=()):
     raise ValueError(op)
 
 
+def cops(op, ord_=()):
+    """The program (list of model operations) an implementation call stands for."""
+    if op[0] == "mput":
+        return [f"Put {d} {v}" for d, v in op[1]]
+    return [cop(op, ord_)]
+
+
+def cprog(ops, ord_=()):
+    return "[" + "; ".join(x for o in ops for x in cops(o, ord_)) + "]"
+
+
 def observed_order(res):
     """The order in which artifacts under final names disappear / appear along the crash points (the engine's row order
     and the order of the refs are not fixed by the operation's arguments)."""
@@ -368,9 +589,9 @@ def ccase(sc, res):
         last = o
     pts = []
     for c in res["crashes"]:
-        fl = ["(" + "[" + "; ".join(cop(o) for o in f["ops"]) + "], " + cobs(f["obs"]) + ")" for f in c["follow"]]
+        fl = ["(" + cprog(f["ops"]) + ", " + cobs(f["obs"]) + ")" for f in c["follow"]]
         pts.append("(" + cobs(c["obs"]) + ", [" + ";\n      ".join(fl) + "])")
-    return ("mkCase [" + "; ".join(cop(o) for o in sc["pre"]) + "]\n   " + cobs(res["pre_obs"]) + "\n   (" + cop(op, gone) + ")\n   ["
+    return ("mkCase " + cprog(sc["pre"]) + "\n   " + cobs(res["pre_obs"]) + "\n   " + cprog([op], gone) + "\n   ["
             + ";\n    ".join(seq) + "]\n   [" + ";\n    ".join(pts) + "]")
 
 
@@ -462,7 +683,7 @@ def run(ctx: Ctx):
         "crash points are the instrumented boundaries (SQLAlchemy before_cursor_execute / commit, FileResourcePath.write / remove, "
         "os.rename / replace / remove / unlink, shutil.copy*), dying BEFORE the event; mid-write = half of the bytes, then death",
     ]
-    ctx.cov["rule"] = nontrivial_rule.__doc__.replace("\n    ", " ")
+    ctx.cov["rule"] = nontrivial_rule.__doc__.replace("\n    ", " ") + " " + nontrivial_shared.__doc__.replace("\n    ", " ")
     props_ok = ctx.build_props(extra_targets=["Model/CrashCheck.vo"])
     if not props_ok:
         from harness.common import coq_make
@@ -471,12 +692,13 @@ def run(ctx: Ctx):
     scs, origins = [], []
     for f in sorted(glob.glob(str(VERIF / "corpus" / "C08" / "*.json"))):
         j = json.load(open(f))
-        scs.append({"pre": j["pre"], "op": j["op"], "follow": j.get("follow", follows_of(j["op"]))})
+        scs.append({"pre": j["pre"], "op": j["op"], "follow": j.get("follow", follows_of(j["op"])), "model": j.get("model", True)})
         origins.append("corpus/" + os.path.basename(f))
     ncorpus = len(scs)
     if ctx.replay:
         j = json.load(open(ctx.replay))
-        scs, origins, ncorpus = [{"pre": j["pre"], "op": j["op"], "follow": j.get("follow") or follows_of(j["op"])}], ["replay"], 1
+        scs, origins, ncorpus = [{"pre": j["pre"], "op": j["op"], "follow": j.get("follow") or follows_of(j["op"]),
+                                  "model": j.get("model", True)}], ["replay"], 1
     else:
         n = int(os.environ.get("VERIF_C08_N", "0")) or (24 if ctx.quick else 64)
         for k in range(n):
@@ -492,14 +714,20 @@ def run(ctx: Ctx):
             continue
         if any(o.startswith("Err:") for o in res["pre_out"]):
             ctx.hist("pre_history_refusals", sum(o.startswith("Err:") for o in res["pre_out"]))
-        check_scenario(ctx, sc, res, org)
+        shared = not sc.get("model", True)
+        (check_shared if shared else check_scenario)(ctx, sc, res, org)
         ctx.count(len(res["crashes"]) + sum(len(c["follow"]) for c in res["crashes"]))
-        ctx.hist("operation", sc["op"][0] + (":" + sc["op"][1] if sc["op"][0] == "ingest" else ""))
+        ctx.hist("operation", ("shared-artifact:" if shared else "") + sc["op"][0] + (":" + sc["op"][1] if sc["op"][0] in ("ingest", "ingestmulti") else ""))
         ctx.hist("fault_free_outcome", res["free"]["out"].split(":")[0] + (":" + res["free"]["out"].split(":")[1] if ":" in res["free"]["out"] else ""))
         ctx.hist("crash_points", len(res["crashes"]))
         ctx.hist("mid_write_points", sum(1 for c in res["crashes"] if c["mid"]))
         ctx.hist("orphan_complete_artifact_states", sum(1 for c in res["crashes"] if any(d not in c["obs"]["raw_ds"] for d, _ in c["obs"]["files"])))
         ctx.hist("temporary_file_states", sum(1 for c in res["crashes"] if c["obs"]["odd"]))
+        if shared:
+            ctx.hist("shared_artifact_states", sum(1 for c in res["crashes"] if len({r[1] for r in c["obs"]["raw_recs_id"]}) < len(c["obs"]["raw_recs_id"])))
+            if nontrivial_shared(sc, res):
+                ctx.nontrivial({"pre": sc["pre"], "op": sc["op"]})
+            continue
         if nontrivial_rule(sc, res):
             ctx.nontrivial({"pre": sc["pre"], "op": sc["op"]})
         cases.append(ccase(sc, res))
@@ -507,7 +735,7 @@ def run(ctx: Ctx):
         if res["free"]["out"] == "Ok":
             gone, came = observed_order(res)
             op = sc["op"]
-            skels.append((len(meta) - 1, "(" + "[" + "; ".join(cop(o) for o in sc["pre"]) + "], " + cop(op, gone) + ", "
+            skels.append((len(meta) - 1, "(" + cprog(sc["pre"]) + ", " + cprog([op], gone) + ", "
                           + nl(abstract_trace(res["free"]["trace"], op[0])) + ")"))
     if meta:
         sc, res, org = meta[min(len(meta) - 1, ncorpus)]
@@ -534,7 +762,7 @@ def run(ctx: Ctx):
                          f"model differs on {detail}.{extra}")
 
     if skels:
-        sbad = ctx.coq_cases("skel", HDR + "Definition chk_skel (c : list op * op * list N) : bool := "
+        sbad = ctx.coq_cases("skel", HDR + "Definition chk_skel (c : list op * list op * list N) : bool := "
                              "list_eqb N.eqb (skeleton (fst (fst c)) (snd (fst c))) (snd c).\n",
                              [s for _, s in skels], "chk_skel", shard=200)
         for j in (sbad or []):
@@ -552,6 +780,6 @@ def run(ctx: Ctx):
         res = execute(ctx, extra, "all")
         for k, (sc, r) in enumerate(zip(extra, res)):
             if r is not None:
-                check_scenario(ctx, sc, r, f"search/{k}")
+                (check_scenario if sc.get("model", True) else check_shared)(ctx, sc, r, f"search/{k}")
         ctx.cov["search"] = (f"{len(extra)} further scenarios with every event as a crash point on the implementation; "
                              f"oracle failures found: {len(ctx.oracle_failures)}")
